@@ -579,12 +579,21 @@ def rule_r5(prog, res):
     res.floor('R5', 'call_wrapper implementations', k, 1)
 
 
+def rule_r6(prog, res):
+    from . import c02
+    from ..report import Result
+    res.share('R6', 'a result holding one object twice is written twice on '
+              'the wire (C02-R6 cycle guard by copy)', 'C02', c02.rule_r6,
+              prog, Result)
+
+
 def run(prog, res, tier):
     res.run_rule(rule_r1, prog, res)
     res.run_rule(rule_r2, prog, res)
     res.run_rule(rule_r3, prog, res)
     res.run_rule(rule_r4, prog, res)
     res.run_rule(rule_r5, prog, res)
+    res.run_rule(rule_r6, prog, res)
 
 
 _N = 'spyne/server/null.py'
